@@ -1,6 +1,179 @@
-(* Proofs about the token-level WKT model (C13). *)
+(* Proofs about the WKT model (C13): token-level round trip, dispatch, rejection; the
+   character-level facts are closed computations on fixed texts. *)
+From Coq Require Import String Ascii.
 From GV Require Import Prelude RingM RingP WktM.
 Open Scope Z_scope.
+
+(* ---------- coordinates ---------- *)
+
+Lemma coord_of_tuple_of : forall c, z_ok c -> coord_of [] (tuple_of c) = Ok c.
+Proof.
+  intros [x y z] H. unfold z_ok in H. cbn in H. unfold tuple_of, coord_of, truthy_z. cbn.
+  destruct z as [z|]; [|reflexivity].
+  destruct (z =? 0) eqn:E; [apply Z.eqb_eq in E; subst; contradiction|reflexivity].
+Qed.
+
+Lemma mapR_map_ok {A B} (f : B -> res A) (g : A -> B) : forall l,
+  (forall a, In a l -> f (g a) = Ok a) -> mapR f (map g l) = Ok l.
+Proof.
+  induction l as [|a l IH]; intros H; cbn; [reflexivity|].
+  rewrite (H a (or_introl eq_refl)). rewrite IH; [reflexivity|].
+  intros b Hb. apply H. right. exact Hb.
+Qed.
+
+Lemma read_ring : forall r, ring_zok r -> mapR (coord_of []) (wring r) = Ok r.
+Proof.
+  intros r H. unfold wring. apply mapR_map_ok. intros c Hc. apply coord_of_tuple_of.
+  unfold ring_zok in H. rewrite Forall_forall in H. apply H. exact Hc.
+Qed.
+
+Lemma read_rings : forall rs, Forall ring_zok rs -> mapR (mapR (coord_of [])) (map wring rs) = Ok rs.
+Proof.
+  intros rs H. apply mapR_map_ok. intros r Hr. apply read_ring. rewrite Forall_forall in H. apply H. exact Hr.
+Qed.
+
+Lemma arity_tuple_of : forall c, arity_ok (tuple_of c) = true.
+Proof. intros c. unfold tuple_of. destruct (truthy_z (cz c)); reflexivity. Qed.
+
+Lemma arity_wring : forall r, forallb arity_ok (wring r) = true.
+Proof.
+  intros r. apply forallb_forall. intros t Ht. apply in_map_iff in Ht as (c & <- & _). apply arity_tuple_of.
+Qed.
+
+Lemma nonempty_map {A B} (f : A -> B) : forall l, l <> [] -> nonempty (map f l) = true.
+Proof. intros [|a l] H; [contradiction|reflexivity]. Qed.
+
+Lemma gate_rings : forall rs, rs <> [] -> Forall (fun r => r <> []) rs ->
+  nonempty (map wring rs) && forallb (fun r => nonempty r && forallb arity_ok r) (map wring rs) = true.
+Proof.
+  intros rs N H. rewrite nonempty_map by exact N. cbn [andb].
+  apply forallb_forall. intros t Ht. apply in_map_iff in Ht as (r & <- & Hr).
+  rewrite Forall_forall in H. unfold wring at 1. rewrite nonempty_map by (apply H; exact Hr).
+  apply arity_wring.
+Qed.
+
+(* ---------- polygons ---------- *)
+
+Lemma ctor_wf : forall half r, ring_wf half r -> ctor half r = Ok r.
+Proof.
+  intros half r H. pose proof (ring_wf_nonempty _ _ H) as N. destruct H as (_ & C & O).
+  unfold ctor. destruct r; [contradiction|]. rewrite norm_ring_fix by assumption. reflexivity.
+Qed.
+
+Lemma ctor_rev_hole : forall half h, hole_wf half h -> ctor half (rev h) = Ok h.
+Proof.
+  intros half h [H R]. pose proof (ring_wf_nonempty _ _ H) as N. destruct H as (_ & C & O).
+  unfold ctor. destruct (rev h) as [|a t] eqn:E.
+  - apply (f_equal (@rev coord)) in E. rewrite rev_involutive in E. cbn in E. contradiction.
+  - rewrite <- E in *. rewrite norm_ring_rev by assumption. reflexivity.
+Qed.
+
+Lemma assemble_polygon_rings : forall half p, polygon_wf half true p ->
+  assemble_polygon half (linear_rings p) = Ok p.
+Proof.
+  intros half p (Wo & _ & Wh). unfold linear_rings, rings_of, assemble_polygon.
+  rewrite (mapR_map_ok (ctor half) (@rev coord)).
+  - rewrite ctor_wf by exact Wo. destruct p; reflexivity.
+  - intros h Hh. rewrite Forall_forall in Wh. destruct (Wh h Hh) as [R _]. apply ctor_rev_hole. exact R.
+Qed.
+
+Lemma polygon_rings_zok : forall half st p, polygon_wf half st p -> Forall ring_zok (linear_rings p).
+Proof.
+  intros half st p (_ & Z & H). unfold linear_rings, rings_of. constructor; [exact Z|].
+  rewrite Forall_forall in *. intros r Hr. apply in_map_iff in Hr as (h & <- & Hh).
+  destruct (H h Hh) as [_ Zh]. unfold ring_zok in *. rewrite Forall_forall in *.
+  intros c Hc. apply Zh. apply in_rev. exact Hc.
+Qed.
+
+Lemma polygon_rings_nonempty : forall half p, polygon_wf half true p ->
+  linear_rings p <> [] /\ Forall (fun r => r <> []) (linear_rings p).
+Proof.
+  intros half p (Wo & _ & Wh). unfold linear_rings, rings_of. split; [discriminate|].
+  constructor; [eapply ring_wf_nonempty; exact Wo|].
+  rewrite Forall_forall in *. intros r Hr. apply in_map_iff in Hr as (h & <- & Hh).
+  destruct (Wh h Hh) as [[R _] _]. pose proof (ring_wf_nonempty _ _ R) as N.
+  intros E. apply N. apply (f_equal (@rev coord)) in E. rewrite rev_involutive in E. exact E.
+Qed.
+
+Lemma read_polys : forall half ps, Forall (polygon_wf half true) ps ->
+  mapR (mapR (mapR (coord_of []))) (map (fun p => map wring (linear_rings p)) ps) = Ok (map linear_rings ps).
+Proof.
+  intros half. induction ps as [|p ps IH]; intros H; [reflexivity|].
+  inversion H as [|? ? Hp Hps]; subst. cbn [map mapR].
+  rewrite read_rings by (eapply polygon_rings_zok; exact Hp). rewrite IH by exact Hps. reflexivity.
+Qed.
+
+(* ---------- round trip ---------- *)
+
+(* shapes whose text the gate accepts and the reader turns back: no empty part, z never 0
+   (finding D14), polygons as the constructor leaves them with holes of non-zero area *)
+Definition wkt_wf (half : Z) (g : geom) : Prop :=
+  match g with
+  | GPoint c => z_ok c
+  | GLine vs => vs <> [] /\ ring_zok vs
+  | GMPoint cs => cs <> [] /\ ring_zok cs
+  | GMLine ls => ls <> [] /\ Forall (fun l => l <> [] /\ ring_zok l) ls
+  | GPoly p => polygon_wf half true p
+  | GMPoly ps => ps <> [] /\ Forall (polygon_wf half true) ps
+  | _ => False
+  end.
+
+Lemma wkt_roundtrip : forall half orc k g t,
+  kind_tag g = Some t -> wkt_wf half g -> read half t (write orc k g) = Ok g.
+Proof.
+  intros half orc k g t K W. destruct g; cbn in K; inversion K; subst t; clear K; cbn in W; unfold read, gate; cbn [write w_tag w_body w_zm wtag_eqb andb].
+  - (* point *) rewrite arity_tuple_of. cbn [parse_body mapR]. rewrite coord_of_tuple_of by exact W. reflexivity.
+  - destruct W as [N Z]. unfold wring at 1. rewrite nonempty_map by exact N. rewrite arity_wring. cbn [andb parse_body].
+    rewrite read_ring by exact Z. reflexivity.
+  - (* polygon *)
+    destruct (polygon_rings_nonempty _ _ W) as [N1 N2].
+    cbn [geom_rings]. rewrite gate_rings by assumption. cbn [parse_body].
+    rewrite read_rings by (eapply polygon_rings_zok; exact W). cbn [assemble].
+    rewrite assemble_polygon_rings by exact W. reflexivity.
+  - destruct W as [N Z]. unfold wring at 1. rewrite nonempty_map by exact N. rewrite arity_wring. cbn [andb parse_body].
+    rewrite read_ring by exact Z. reflexivity.
+  - destruct W as [N H]. rewrite gate_rings; [|exact N|].
+    + cbn [parse_body]. rewrite read_rings; [reflexivity|].
+      rewrite Forall_forall in *. intros l Hl. apply (H l Hl).
+    + rewrite Forall_forall in *. intros l Hl. apply (H l Hl).
+  - (* multipolygon *)
+    destruct W as [N H]. rewrite nonempty_map by exact N. cbn [andb].
+    assert (G : forallb (fun p0 => nonempty p0 && forallb (fun r => nonempty r && forallb arity_ok r) p0)
+                        (map (fun p => map wring (linear_rings p)) ps) = true).
+    { apply forallb_forall. intros x Hx. apply in_map_iff in Hx as (p & <- & Hp).
+      rewrite Forall_forall in H. destruct (polygon_rings_nonempty _ _ (H p Hp)) as [N1 N2].
+      apply gate_rings; assumption. }
+    rewrite G. cbn [parse_body].
+    rewrite (read_polys half ps H).
+    cbn [assemble].
+    rewrite (mapR_map_ok (assemble_polygon half) linear_rings).
+    + reflexivity.
+    + intros p Hp. apply assemble_polygon_rings. rewrite Forall_forall in H. apply (H p Hp).
+Qed.
+
+(* ---------- dispatch ---------- *)
+
+Lemma parse_wkt_dispatch : forall half orc k g t,
+  kind_tag g = Some t -> parse_wkt half (write orc k g) = read half t (write orc k g).
+Proof. intros half orc k g t K. destruct g; cbn in K; inversion K; reflexivity. Qed.
+
+(* every shape without a WKT type of its own is written, and dispatched, as a POLYGON *)
+Lemma shapeless_dispatch : forall half orc k g,
+  kind_tag g = None -> w_tag (write orc k g) = Some TPoly /\
+  parse_wkt half (write orc k g) = read half TPoly (write orc k g).
+Proof. intros half orc k g K. destruct g; cbn in K; try discriminate; split; reflexivity. Qed.
+
+Lemma lowercase_not_dispatched : forall half w, w_upper w = false -> parse_wkt half w = Err ValueError.
+Proof. intros half w H. unfold parse_wkt. rewrite H. destruct (w_tag w); reflexivity. Qed.
+
+Lemma unknown_keyword_rejected : forall half w, w_tag w = None ->
+  parse_wkt half w = Err ValueError /\ forall t, read half t w = Err ValueError.
+Proof.
+  intros half w H. split; [unfold parse_wkt; rewrite H; reflexivity|].
+  intros t. unfold read, gate. rewrite H. reflexivity.
+Qed.
+
+(* ---------- rejection ---------- *)
 
 Lemma wrong_tag_rejected : forall half t w,
   w_tag w <> Some t -> read half t w = Err ValueError.
@@ -9,3 +182,138 @@ Proof.
   destruct (wtag_eqb t t') eqn:E; [|reflexivity].
   exfalso. apply H. destruct t, t'; try discriminate; reflexivity.
 Qed.
+
+Definition depth_of (t : wtag) : nat :=
+  match t with TPoint | TLine | TMPoint => 1 | TPoly | TMLine => 2 | TMPoly => 3 end%nat.
+
+Definition body_depth (b : wbody) : nat := match b with W1 _ => 1 | W2 _ => 2 | W3 _ => 3 end%nat.
+
+Definition all_tuples (b : wbody) : list tuple :=
+  match b with
+  | W1 l => l
+  | W2 l => concat l
+  | W3 l => concat (concat l)
+  end.
+
+(* anything the reader does not refuse with ValueError at the gate has the right keyword, the
+   right nesting depth, and 2..4 numbers in every coordinate *)
+Lemma gate_inv : forall t w, gate t w = true ->
+  w_tag w = Some t /\ body_depth (w_body w) = depth_of t /\
+  Forall (fun c => (2 <= length c <= 4)%nat) (all_tuples (w_body w)).
+Proof.
+  intros t w. unfold gate. destruct (w_tag w) as [t'|]; [|discriminate].
+  destruct (wtag_eqb t t') eqn:E; [|discriminate].
+  assert (t' = t) by (destruct t, t'; try discriminate; reflexivity). subst t'. cbn [andb].
+  assert (A : forall c, arity_ok c = true -> (2 <= length c <= 4)%nat).
+  { intros c Hc. unfold arity_ok in Hc. apply andb_true_iff in Hc as [H1 H2].
+    apply Nat.leb_le in H1, H2. lia. }
+  assert (F1 : forall l, forallb arity_ok l = true -> Forall (fun c => (2 <= length c <= 4)%nat) l).
+  { intros l Hl. rewrite forallb_forall in Hl. apply Forall_forall. intros c Hc. apply A, Hl, Hc. }
+  assert (F2 : forall l, forallb (fun r => nonempty r && forallb arity_ok r) l = true ->
+                         Forall (fun c => (2 <= length c <= 4)%nat) (concat l)).
+  { intros l Hl. rewrite forallb_forall in Hl. apply Forall_forall. intros c Hc.
+    apply in_concat in Hc as (r & Hr & Hc). specialize (Hl r Hr). apply andb_true_iff in Hl as [_ Hl].
+    rewrite forallb_forall in Hl. apply A, Hl, Hc. }
+  destruct t; destruct (w_body w) as [l|l|l]; try discriminate; intros H; (split; [reflexivity|]); (split; [reflexivity|]); cbn [all_tuples].
+  - destruct l as [|c [|? ?]]; try discriminate. constructor; [apply A; exact H|constructor].
+  - apply andb_true_iff in H as [_ H]. apply F1, H.
+  - apply andb_true_iff in H as [_ H]. apply F2, H.
+  - apply andb_true_iff in H as [_ H]. apply F1, H.
+  - apply andb_true_iff in H as [_ H]. apply F2, H.
+  - apply andb_true_iff in H as [_ H]. rewrite forallb_forall in H. apply Forall_forall. intros c Hc.
+    apply in_concat in Hc as (r & Hr & Hc). apply in_concat in Hr as (p & Hp & Hr).
+    specialize (H p Hp). apply andb_true_iff in H as [_ H].
+    pose proof (F2 p H) as F. rewrite Forall_forall in F. apply F. apply in_concat. exists r. split; assumption.
+Qed.
+
+Lemma read_gate : forall half t w, gate t w = false -> read half t w = Err ValueError.
+Proof. intros half t w H. unfold read. rewrite H. reflexivity. Qed.
+
+Lemma bad_arity_rejected : forall half t w c,
+  In c (all_tuples (w_body w)) -> ~ (2 <= length c <= 4)%nat -> read half t w = Err ValueError.
+Proof.
+  intros half t w c Hc Hn. apply read_gate. destruct (gate t w) eqn:G; [|reflexivity].
+  exfalso. destruct (gate_inv _ _ G) as (_ & _ & F). rewrite Forall_forall in F. apply Hn, F, Hc.
+Qed.
+
+Lemma wrong_depth_rejected : forall half t w,
+  body_depth (w_body w) <> depth_of t -> read half t w = Err ValueError.
+Proof.
+  intros half t w Hn. apply read_gate. destruct (gate t w) eqn:G; [|reflexivity].
+  exfalso. destruct (gate_inv _ _ G) as (_ & D & _). contradiction.
+Qed.
+
+(* ---------- shapes without a WKT type write the WKT of their polygon form ---------- *)
+
+Lemma is_ccw_box : forall half nw se, lon nw <= lon se -> lat se <= lat nw -> lon se - lon nw <= half ->
+  is_ccw half (box_ring nw se) = true.
+Proof.
+  intros half nw se Hx Hy Hs.
+  destruct (box_ring_ccw nw se Hx Hy) as [C A].
+  apply is_ccw_area; [|apply closedb_xy; exact C|exact A].
+  intros a b Ha Hb. unfold box_ring in Ha, Hb. cbn in Ha, Hb.
+  repeat (destruct Ha as [<-|Ha]; [repeat (destruct Hb as [<-|Hb]; [cbn; lia|]); destruct Hb|]). destruct Ha.
+Qed.
+
+(* GeoBox.to_wkt() = GeoBox.to_polygon().to_wkt() *)
+Lemma shapeless_write_box : forall half orc k nw se hs,
+  lon nw <= lon se -> lat se <= lat nw -> lon se - lon nw <= half ->
+  write orc k (GBox nw se hs) = write orc k (GPoly (mk_polygon half (box_ring nw se) hs)).
+Proof.
+  intros half orc k nw se hs Hx Hy Hs. unfold write, mk_polygon. cbn [geom_rings linear_rings outline pholes].
+  rewrite norm_ring_fix; [reflexivity| |apply is_ccw_box; assumption].
+  destruct (box_ring_ccw nw se Hx Hy) as [C _]. exact C.
+Qed.
+
+(* circle / ellipse / wedge: CONDITIONAL on the sampled boundary being closed and counter-clockwise *)
+Lemma shapeless_write_round : forall half orc k id hs,
+  closedb (o_outer orc id k) = true -> is_ccw half (o_outer orc id k) = true ->
+  write orc k (GRound id hs) = write orc k (GPoly (mk_polygon half (o_outer orc id k) hs)).
+Proof.
+  intros half orc k id hs C O. unfold write, mk_polygon. cbn [geom_rings linear_rings outline pholes].
+  rewrite norm_ring_fix by assumption. reflexivity.
+Qed.
+
+Lemma shapeless_write_wedge : forall half orc k id hs,
+  let r := (o_outer orc id k ++ rev (o_inner orc id k) ++ firstn 1 (o_outer orc id k))%list in
+  is_ccw half r = true -> o_outer orc id k <> [] ->
+  write orc k (GWedge id hs) = write orc k (GPoly (mk_polygon half r hs)).
+Proof.
+  intros half orc k id hs r O N. unfold write, mk_polygon. cbn [geom_rings linear_rings outline pholes].
+  fold r. rewrite norm_ring_fix; [reflexivity| |exact O]. apply closedb_wedge. exact N.
+Qed.
+
+(* ---------- refutations (known findings) ---------- *)
+
+Definition noorc : oracle := mkoracle (fun _ _ => []) (fun _ _ => []).
+
+(* D14: z = 0 is not written *)
+Lemma z_zero_wkt_refuted :
+  exists g g', kind_tag g = Some TPoint /\ read 720 TPoint (write noorc None g) = Ok g' /\ g' <> g.
+Proof.
+  exists (GPoint (mkc 4 8 (Some 0))), (GPoint (mkc 4 8 None)). repeat split. discriminate.
+Qed.
+
+Definition chars (s : string) : str := list_ascii_of_string s.
+
+(* D26: a digit run that the gate splits into two numbers reaches Coordinate() with one part *)
+Lemma digit_run_split_refuted :
+  from_wkt_chars TPoint (chars "POINT(1234)") = inr (Err TypeError) /\
+  parse_wkt_chars (chars "POINT(1234)") = inr (Err TypeError).
+Proof. vm_compute. split; reflexivity. Qed.
+
+(* a Z value with four integer digits and a fraction is not one number of the grammar: the
+   library's own text 'POINT(1.0 2.0 1500.5)' reads back with z = 1500.0 (units of 0.1) *)
+Lemma z_four_digits_refuted :
+  from_wkt_chars TPoint (chars "POINT(1.0 2.0 1500.5)") =
+  inr (Ok (GPoint (mkc 10 20 (Some 15000)), -1)).
+Proof. vm_compute. reflexivity. Qed.
+
+(* the same text with a three-digit Z is read exactly; exponent form (repair D13) is accepted *)
+Lemma char_level_examples :
+  from_wkt_chars TPoint (chars "POINT(1.0 2.0 150.5)") = inr (Ok (GPoint (mkc 10 20 (Some 1505)), -1)) /\
+  from_wkt_chars TPoint (chars "POINT(1e-05 5.0)") = inr (Ok (GPoint (mkc 1 500000 None), -5)) /\
+  from_wkt_chars TLine (chars "POINT(1.0 2.0)") = inr (Err ValueError) /\
+  parse_wkt_chars (chars "point(1.0 2.0)") = inr (Err ValueError) /\
+  from_wkt_chars TPoint (chars "POINT(1.0 2.0") = inr (Err ValueError).
+Proof. vm_compute. repeat split; reflexivity. Qed.
